@@ -27,6 +27,27 @@ open Pyc Pyc.Codec Pyc.Cbor Pyc.Schema Pyc.Generated Pyc.Custom
 trailing, every referenced class defined -/
 theorem repo_schema_wf : wf repoSchema = true := by decide +kernel
 
+/-- names of non-codec types occurring in a type term -/
+def namedIn : Ty → List String
+  | .named n => [n]
+  | .list t => namedIn t
+  | .dict k v => namedIn k ++ namedIn v
+  | .oset t _ => namedIn t
+  | .tuple ts => namedInList ts
+  | .union ts => namedInList ts
+  | _ => []
+where namedInList : List Ty → List String
+  | [] => []
+  | t :: ts => namedIn t ++ namedInList ts
+
+/-- every type hint of the regenerated table is one the typed restorer understands: the only non-codec type names are
+the three it special-cases. A hint it does not understand (e.g. a PEP 604 `X | None`, which has no `__origin__`) is
+rendered by the translator as another `named` type — the field could then be written but never read back -/
+theorem repo_hints_understood :
+    (repoSchema.all fun cd => cd.fields.all fun f =>
+      (namedIn f.ty).all fun n => ["CBORTag", "IndefiniteList", "RawCBOR", "ByteString"].contains n) = true := by
+  decide +kernel
+
 def namedUnion (n : String) : List Ty :=
   match repoUnions.find? (fun r => r.1 == n) with
   | some (_, .union ts) => ts
@@ -430,3 +451,4 @@ end Pyc.C01
 #print axioms Pyc.C01.body_norm_field
 #print axioms Pyc.C01.exValue_ok
 #print axioms Pyc.C01.exInline_ok
+#print axioms Pyc.C01.repo_hints_understood
